@@ -34,6 +34,8 @@ pub(crate) struct RawOp<M: ?Sized> {
     // The cancelled flag indicates the op has been cancelled.
     cancelled: bool,
     result: PushEntry<Option<Waker>, io::Result<usize>>,
+    #[cfg(compio_verif)]
+    verif_token: crate::verif::Token,
     pub(crate) carrier: M,
 }
 
@@ -213,9 +215,17 @@ impl ErasedKey {
             extra,
             cancelled: false,
             result: PushEntry::Pending(None),
+            #[cfg(compio_verif)]
+            verif_token: Default::default(),
             carrier: Carrier::new(op, driver_ty),
         };
         let mut inner = ThinCell::new(raw_op);
+        #[cfg(compio_verif)]
+        {
+            let id = inner.as_ptr() as *const () as usize;
+            unsafe { inner.borrow_unchecked().verif_token.0 = id };
+            crate::verif::emit(crate::verif::Event::OpAlloc { id });
+        }
         // SAFETY:
         // - ThinCell is just created, there will be no shared owner or borrower
         // - Carrier is being pinned by ThinCell, it will have a stable address until
